@@ -1,5 +1,6 @@
 (* Props/C12.v — context and special-function availability follows GitHub's
    table exactly.  Only statements; every proof is [exact <lemma>]. *)
+From AL Require Wf.AvailOld.
 From AL Require Import Wf.Avail Wf.AvailProofs Wf.SpecAvailability.
 From AL Require Import Gen.GenAvailability Gen.GenRouteSites.
 
@@ -57,6 +58,24 @@ Theorem C12_special_verdict : forall vars funcs specials ctxs sps sigok e,
   (In (mk_diag p DFn c) (check vars funcs specials ctxs sps sigok e) <-> ~ In (lower c) sps).
 Proof. exact special_verdict. Qed.
 Print Assumptions C12_special_verdict.
+
+(* from the repair on (checkSpecialFunctionAvailability runs before the overloads are tried) the
+   verdict does not depend on whether the arguments of the call are accepted: the code is the
+   model with [sigok] = always true, which is what the executable entry point [check_at] uses *)
+Theorem C12_special_verdict_whatever_the_arguments : forall vars funcs specials ctxs sps e,
+  calls_known funcs e -> forall p c, In (p, c) (calls e) -> In (lower c) specials ->
+  (In (mk_diag p DFn c) (check vars funcs specials ctxs sps (fun _ => true) e) <-> ~ In (lower c) sps).
+Proof. exact AvailOld.special_verdict_whatever_the_arguments. Qed.
+Print Assumptions C12_special_verdict_whatever_the_arguments.
+
+(* before it the availability of a special function was only looked at when an overload accepted
+   the call: `always(1)` at `name:` drew the arity diagnostic alone *)
+Theorem C12_special_unaccepted_call_old_refuted :
+  exists vars funcs specials ctxs sps sigok e p c,
+    calls_known funcs e /\ In (p, c) (calls e) /\ In (lower c) specials /\ ~ In (lower c) sps /\
+    ~ In (mk_diag p DFn c) (check vars funcs specials ctxs sps sigok e).
+Proof. exact AvailOld.special_unaccepted_call_old_refuted. Qed.
+Print Assumptions C12_special_unaccepted_call_old_refuted.
 
 Theorem C12_non_special_never : forall vars funcs specials ctxs sps sigok e p c,
   ~ In (lower c) specials -> ~ In (mk_diag p DFn c) (check vars funcs specials ctxs sps sigok e).
